@@ -514,7 +514,7 @@ func c12R5(c *Ctx, rule string) {
 		// ("inserted") is a guard of the increment
 		dom := false
 		for _, li := range inserts {
-			if li.acc.Fn == f && instrDominates(li.acc.Instr, cs) {
+			if li.acc.Fn == f && (instrDominates(li.acc.Instr, cs) || guardedByFlagOf(cs, li.acc.Instr)) {
 				dom = true
 			}
 			if li.oc != nil {
